@@ -26,6 +26,22 @@ type BCfg struct {
 	SlowAlloc time.Duration
 	// FailAlloc: AllocatePacketConn fails (after SlowAlloc): the server answers 508.
 	FailAlloc bool
+	// PlainConns: the connections the server gets (accepted from the stream listener, dialled for a Connect) are
+	// plain net.Conns like those of crypto/tls: no io.ReaderFrom / io.WriterTo short cuts for io.Copy to take.
+	PlainConns bool
+}
+
+type plainConn struct{ net.Conn }
+
+type plainListener struct{ net.Listener }
+
+func (l plainListener) Accept() (net.Conn, error) {
+	c, err := l.Listener.Accept()
+	if err != nil {
+		return nil, err
+	}
+
+	return plainConn{c}, nil
 }
 
 var errNoPorts = errors.New("bgen: no relay port available")
@@ -81,7 +97,15 @@ func (g bgen) AllocateConn(c turn.AllocateConnConfig) (net.Conn, error) {
 		vsched.IdleSleep(g.w.cfg.SlowDial) // a peer that answers the SYN late
 	}
 
-	return g.w.Net.DialTCPAddr(la, ra)
+	c2, err := g.w.Net.DialTCPAddr(la, ra)
+	if err != nil {
+		return nil, err
+	}
+	if g.w.cfg.PlainConns {
+		return plainConn{c2}, nil
+	}
+
+	return c2, nil
 }
 
 func (w *BW) life(cfg BCfg, kind, s string) {
@@ -140,7 +164,11 @@ func NewBW(cfg BCfg) *BW {
 			panic(err)
 		}
 		w.Lst = l
-		sc.ListenerConfigs = []turn.ListenerConfig{{Listener: l, RelayAddressGenerator: bgen{w}}}
+		var ln net.Listener = l
+		if cfg.PlainConns {
+			ln = plainListener{l}
+		}
+		sc.ListenerConfigs = []turn.ListenerConfig{{Listener: ln, RelayAddressGenerator: bgen{w}}}
 	} else {
 		s, err := w.Net.ListenUDP("udp", w.SrvAddr)
 		if err != nil {
